@@ -98,6 +98,13 @@ ImpliedForm(T, d, m, cell) ==
       [] T = "mprocess" -> [const |-> IF cell[3] = 0 THEN "1" ELSE "0",
                             minus |-> {<<x, 0, cell[3]>> : x \in 0..(m - 2)}]
 
+\* the implied cells whose formula subtracts `cell`
+SubtractedIn(T, d, m, cell) ==
+    CASE T = "povm"     -> IF cell[1] < m - 1 THEN {<<m - 1, cell[2], 0>>} ELSE {}
+      [] T = "mprocess" -> IF cell[1] < m - 1 /\ cell[2] = 0 THEN {<<m - 1, 0, cell[3]>>} ELSE {}
+      [] OTHER -> {}
+ImpliedCells(T, d, m) == {c \in Cells(T, d, m) : IsImplied(T, d, m, c)}
+
 \* ---------------------------------------------------------------- sets of operations
 \* An operation set is a record of four sequences of object descriptors [T, d, m, para];
 \* the total variable vector concatenates states, gates, povms, mprocesses in that order.
